@@ -59,6 +59,8 @@ func propC18(c *Ctx) {
 	scanSinks(c, fns, sinkRules{assert: ra, alloc: rl, slice: rs, index: ri, panics: rp})
 	rls := c.Rule("loop-stutter", "no loop on the decode path has an effect-free cycle on which every loop variable keeps its value (decoding terminates: a necessary condition only)", 1)
 	ruleLoopStutter(c, rls, fns, 8)
+	rmn := c.Rule("map-update-nonnil", "every map update on the decode path writes to a map that is made in the function, filled where it was nil, or tested non-nil (decoding into a zero value does not panic)", 2)
+	ruleMapUpdateNonNil(c, rmn, fns)
 	rdr := c.Rule("decode-reentrant", "the decoding functions keep no state in package-level variables: none is assigned, and package-level slices and maps are only read", 1)
 	ruleDecodeReentrant(c, rdr, fns)
 	rdo := c.Rule("decoded-opaque", "no method is invoked on an object returned by DecodeObject on the decode path: it is asserted to the expected type, stored or returned (a gob container can hold nil elements that String / Equal / Copy dereference)", 3)
